@@ -99,7 +99,7 @@ Print Assumptions C19_subclass_context_refuted.
    order given by C19_de_trace_partial / C19_de_post_once; the base's hooks are not run again around the dispatch. *)
 Theorem C19_disc_config_dispatch :
   forall E c t v kvs n,
-    c_disc (cls E c) = Some true -> lookup_tag E (subclasses E c) t = Some v -> c_disc (cls E v) = None ->
+    c_disc (cls E c) = Some true -> lookup_tag E (c_tagger (cls E c)) (subclasses E c) t = Some v -> c_disc (cls E v) = None ->
     unpack E (WDict (Some t) kvs) (TDc c) n = unpack E (WDict (Some t) kvs) (TDc v) n.
 Proof. exact disc_config_dispatch. Qed.
 Print Assumptions C19_disc_config_dispatch.
@@ -107,7 +107,7 @@ Print Assumptions C19_disc_config_dispatch.
 (* the same for Annotated[P, Discriminator(field, include_subtypes[, include_supertypes])] on a field *)
 Theorem C19_disc_annotated_dispatch :
   forall E p sup t v kvs n,
-    lookup_tag E (disc_variants E p sup) t = Some v -> c_disc (cls E v) = None ->
+    lookup_tag E false (disc_variants E p sup) t = Some v -> c_disc (cls E v) = None ->
     unpack E (WDict (Some t) kvs) (TDisc p true sup) n = unpack E (WDict (Some t) kvs) (TDc v) n.
 Proof. exact disc_annotated_dispatch. Qed.
 Print Assumptions C19_disc_annotated_dispatch.
@@ -117,7 +117,7 @@ Theorem C19_disc_no_variant :
   forall E c kvs n,
     c_disc (cls E c) = Some true ->
     unpack E (WDict None kvs) (TDc c) n = (None, [], n) /\
-    (forall t, lookup_tag E (subclasses E c) t = None -> unpack E (WDict (Some t) kvs) (TDc c) n = (None, [], n)).
+    (forall t, lookup_tag E (c_tagger (cls E c)) (subclasses E c) t = None -> unpack E (WDict (Some t) kvs) (TDc c) n = (None, [], n)).
 Proof. exact disc_no_variant. Qed.
 Print Assumptions C19_disc_no_variant.
 
@@ -206,7 +206,7 @@ Definition E_ex5 : env :=
     mk_cinfo_h [Build_field 0 TInt false; Build_field 2 TInt false] false false true true false (Some 0) (Some 3) None;
     mk_cinfo [Build_field 3 (TDc 0) false; Build_field 4 (TList (TDisc 0 false false)) false] false false false false false ].
 Example C19_disc_nonvacuous :
-  subclasses E_ex5 0 = [1; 2; 3] /\ lookup_tag E_ex5 (subclasses E_ex5 0) 3 = Some 3 /\
+  subclasses E_ex5 0 = [1; 2; 3] /\ lookup_tag E_ex5 false (subclasses E_ex5 0) 3 = Some 3 /\
   (* through the base: only the variant S2's hooks, once *)
   unpack E_ex5 (WDict (Some 3) [(0, WInt); (2, WInt)]) (TDc 0) 0
   = (Some (VInst 3 0 0 [(0, VInt); (2, VInt)]), [PreDe 3; PostDe 3 0], 1) /\
@@ -228,9 +228,9 @@ Proof. repeat split; vm_compute; reflexivity. Qed.
    value.__mashumaro_to_dict__(dialect=dialect) raises TypeError, the second one passes the context: B's hooks get the
    token (with equal dialect options the first expression would have succeeded and lost it, cf. C19_union_context_refuted) *)
 Definition E_ex6 : env :=
-  [ Build_cinfo [Build_field 0 TInt false] true true false false false None None None (false, false, true);
-    Build_cinfo [Build_field 1 TInt false] true true false false true None None None (false, false, false);
-    Build_cinfo [Build_field 2 (TUnion [0; 1]) false] true true false false true None None None (false, false, true) ].
+  [ Build_cinfo [Build_field 0 TInt false] true true false false false None None None (false, false, true) false;
+    Build_cinfo [Build_field 1 TInt false] true true false false true None None None (false, false, false) false;
+    Build_cinfo [Build_field 2 (TUnion [0; 1]) false] true true false false true None None None (false, false, true) false ].
 Example C19_union_flags_nonvacuous :
   wt E_ex6 true (VInst 2 1 1 [(2, VInst 1 2 2 [(1, VInt)])]) (TDc 2) = true /\
   pack E_ex6 true Mixin (VInst 2 1 1 [(2, VInst 1 2 2 [(1, VInt)])]) (TDc 2) true (false, false, true) CTok
@@ -252,3 +252,13 @@ Example C19_disc_nested_nonvacuous :
   = (Some (VInst 2 0 0 [(0, VInt); (1, VInt)]), [PreDe 2; PostDe 2 0], 1) /\
   post_events_of E_ex7 (VInst 3 0 0 [(0, VInt)]) [PreDe 2; PreDe 3; PostDe 3 0] = [PostDe 3 0].
 Proof. repeat split; vm_compute; reflexivity. Qed.
+
+(* variant_tagger_fn: Base (0, class-level discriminator with a tagger) <- S (1, binds no discriminator attribute).
+   With the tagger every variant is registered under its own name, without it S could not be selected at all. *)
+Definition E_ex8 (tagger: bool) : env :=
+  [ Build_cinfo [Build_field 0 TInt false] false false true true false None None (Some true) xf_none tagger;
+    mk_cinfo_h [Build_field 0 TInt false] false false true true false (Some 0) None None ].
+Example C19_tagger_nonvacuous :
+  unpack (E_ex8 true) (WDict (Some 1) [(0, WInt)]) (TDc 0) 0 = (Some (VInst 1 0 0 [(0, VInt)]), [PreDe 1; PostDe 1 0], 1) /\
+  unpack (E_ex8 false) (WDict (Some 1) [(0, WInt)]) (TDc 0) 0 = (None, [], 0).
+Proof. split; vm_compute; reflexivity. Qed.
